@@ -1193,3 +1193,75 @@ Proof.
   destruct (merge_range_i2kt dims mask Hp HL c tau Hc Ht) as [B _].
   apply HM; assumption.
 Qed.
+
+(* ------------------------------------------------------------------ *)
+(* superoperator.py: _to_super_of_tensor on factors over composite spaces *)
+
+Lemma gather_app : forall o1 o2 l, gather (o1 ++ o2) l = gather o1 l ++ gather o2 l.
+Proof. intros. unfold gather. apply map_app. Qed.
+
+Lemma gather_window : forall pre x post,
+  gather (map (fun i => length pre + i) (seq 0 (length x))) (pre ++ x ++ post) = x.
+Proof.
+  intros pre x post. unfold gather. rewrite map_map.
+  rewrite <- (gather_seq x) at 2. unfold gather. apply map_ext_in.
+  intros i Hi. apply in_seq in Hi.
+  rewrite app_nth2_plus. apply app_nth1. lia.
+Qed.
+
+(* flat index labels of a tensor of superoperators: for every factor its row
+   ("to") labels, then its column ("from") labels *)
+Definition tensor_of_supers_labels (ls rs : list (list nat)) : list nat :=
+  concat (map (fun p => fst p ++ snd p) (combine ls rs)).
+
+Lemma sot_lists_cons : forall shift n t,
+  sot_lists shift (n :: t) =
+  (map (fun i => shift + i) (seq 0 n) ++ fst (sot_lists (shift + 2 * n) t),
+   map (fun i => shift + n + i) (seq 0 n) ++ snd (sot_lists (shift + 2 * n) t)).
+Proof.
+  intros. cbn [sot_lists]. destruct (sot_lists (shift + 2 * n) t) as [a b]. reflexivity.
+Qed.
+
+Lemma sot_lists_groups : forall ls rs, Forall2 (fun l r => length l = length r) ls rs ->
+  forall pre,
+  gather (fst (sot_lists (length pre) (map (@length nat) ls))) (pre ++ tensor_of_supers_labels ls rs)
+    = concat ls /\
+  gather (snd (sot_lists (length pre) (map (@length nat) ls))) (pre ++ tensor_of_supers_labels ls rs)
+    = concat rs.
+Proof.
+  intros ls rs H. induction H as [|l r ls rs Hlr _ IH]; intros pre.
+  - simpl. split; reflexivity.
+  - unfold tensor_of_supers_labels. cbn [map combine concat fst snd].
+    fold (tensor_of_supers_labels ls rs).
+    rewrite sot_lists_cons. cbn [fst snd].
+    specialize (IH (pre ++ l ++ r)).
+    assert (E : length (pre ++ l ++ r) = length pre + 2 * length l)
+      by (rewrite !app_length; lia).
+    rewrite E in IH.
+    assert (B : pre ++ (l ++ r) ++ tensor_of_supers_labels ls rs
+                = (pre ++ l ++ r) ++ tensor_of_supers_labels ls rs)
+      by (rewrite <- !app_assoc; reflexivity).
+    destruct IH as [IHa IHb]. rewrite !gather_app. split.
+    + f_equal.
+      * rewrite <- app_assoc. apply gather_window.
+      * rewrite B. exact IHa.
+    + f_equal.
+      * replace (pre ++ (l ++ r) ++ tensor_of_supers_labels ls rs)
+          with ((pre ++ l) ++ r ++ tensor_of_supers_labels ls rs)
+          by (rewrite <- !app_assoc; reflexivity).
+        rewrite (map_ext (fun i => length pre + length l + i) (fun i => length (pre ++ l) + i))
+          by (intros; rewrite app_length; reflexivity).
+        rewrite Hlr. apply gather_window.
+      * rewrite B. exact IHb.
+Qed.
+
+Theorem super_of_tensor_groups : forall ls rs,
+  Forall2 (fun l r => length l = length r) ls rs ->
+  gather (super_of_tensor_order (map (@length nat) ls)) (tensor_of_supers_labels ls rs)
+  = concat ls ++ concat rs.
+Proof.
+  intros ls rs H. unfold super_of_tensor_order.
+  destruct (sot_lists_groups ls rs H []) as [A B]. simpl in A, B.
+  destruct (sot_lists 0 (map (@length nat) ls)) as [a b]. simpl in *.
+  rewrite gather_app, A, B. reflexivity.
+Qed.
